@@ -14,7 +14,7 @@ object those replies read or write.  Matches are abstracted to `MKey` (`none` = 
 | `runRx` echo/features/…      | `_rx_echo_request` (:271), `_rx_features_request` (:278), `_rx_echo_reply` (:329),     |
 |                              | `_rx_barrier_request` (:332), `_rx_get_config_request` (:336), `_rx_set_config` (:358), |
 |                              | `_rx_vendor` (:393), `_rx_queue_get_config_request` (:399, with repair D27)            |
-| `rxFlowMod`, `flowMod*`      | `_rx_flow_mod` (:292-310, with repair D9), `_flow_mod_add/modify/delete[_strict]`      |
+| `rxFlowMod`, `flowMod*`      | `_rx_flow_mod` (:292-310), `_flow_mod_add/modify/delete[_strict]`      |
 |                              | (:747-842), `FlowTable.add_entry/remove_matching_entries/check_for_overlapping_entry`, |
 |                              | `_handle_FlowTableModification` (:215-232: flow-removed notifications)                 |
 | `rxPacketOut`, `processActions`, `outputPacket`, `processFromBuffer`, `bufferPacket` |                                 |
@@ -341,16 +341,21 @@ def processActions (xid : Nat) : SwitchState → List Act → Res
     | some .enqueue => .error .unmodelled
     | some _ => processActions xid s rest
 
-/-- `_process_actions_for_packet_from_buffer` (buffer id as on the wire, unsigned) -/
+/-- buffer id `id` (as on the wire) names a stored packet -/
+def bufferLive (s : SwitchState) (id : Nat) : Bool := id != 0 && s.buffers.getD (id - 1) false
+
+/-- `_process_actions_for_packet_from_buffer` (buffer id as on the wire, unsigned; `ofp` is always the triggering
+packet_out / flow_mod).  Repair C13-2: an id outside the slot list is answered with BAD_REQUEST/BUFFER_UNKNOWN, an
+already flushed slot with BAD_REQUEST/BUFFER_EMPTY. -/
 def processFromBuffer (xid : Nat) (s : SwitchState) (acts : List Act) (id : Nat) : Res :=
-  if id = 0 then .ok (s, [])
+  if id = 0 then .ok (s, [sendError xid OFPET_BAD_REQUEST OFPBRC_BUFFER_UNKNOWN])
   else if h : id - 1 < s.buffers.length then
     if s.buffers[id - 1] then
       match processActions xid s acts with
       | .error e => .error e
       | .ok (s1, o) => .ok ({ s1 with buffers := s1.buffers.set (id - 1) false }, o)
-    else .ok (s, [])
-  else .ok (s, [])
+    else .ok (s, [sendError xid OFPET_BAD_REQUEST OFPBRC_BUFFER_EMPTY])
+  else .ok (s, [sendError xid OFPET_BAD_REQUEST OFPBRC_BUFFER_UNKNOWN])
 
 /-- `_rx_packet_out` -/
 def rxPacketOut (s : SwitchState) (xid : Nat) (bufferId : Option Nat) (hasData : Bool) (acts : List Act) : Res :=
